@@ -180,6 +180,16 @@ class Adapter:
                 shared = {"k": "list", "kids": [shared, tree(3)]}
             t = {"k": "dict", "keys": ["rx", "tx", "z"],
                  "kids": [{"k": "dict", "keys": ["lane"], "kids": [shared]}, {"k": "dict", "keys": ["lane"], "kids": [shared]}, t]}
+        elif r.random() < 0.2:
+            # distinct paths that look alike once joined with "__": ("ch", 0) and ("ch__0",), ("g", "x") and ("g__x",) -
+            # each field has its own bit range, whatever the fields are called
+            def leaf():
+                return {"k": "leaf", "w": r.choice([1, 3, 4, 8]), "acc": r.choice(["rw", "rw", "r", "w"]),
+                        "shape": r.choice(["unsigned", "signed", "enum"])}
+            if r.random() < 0.5:
+                t = {"k": "dict", "keys": ["ch", "ch__0", "z"], "kids": [{"k": "list", "kids": [leaf(), leaf()]}, leaf(), t]}
+            else:
+                t = {"k": "dict", "keys": ["g__x", "g", "z"], "kids": [leaf(), {"k": "dict", "keys": ["x", "y"], "kids": [leaf(), leaf()]}, t]}
         return {"access": r.choice(["r", "w", "rw", "rw", "rw"]), "tree": t, "how": r.choice(["arg", "annot", "subclass"])}
 
     def random_schedule(self, r, cfg, length):
